@@ -1,7 +1,7 @@
 \* generated by mkcfg_searchers.py; families and layouts: MCSearchers.tla
 SPECIFICATION Spec
 CONSTANTS
-  SegSizes <- Segs3
+  SegSizes <- Segs4
   Deleted = {1}
   OneHitEnc = TRUE
   ScoreNone = FALSE
